@@ -13,6 +13,11 @@ SCOPE_EXCLUDE = ("utils.py", "textimage.py", "special/", "_version.py", "fpu.py"
 # One line of reason each; anything not listed and not provably insensitive is a violation.
 R91_EXEMPT = {}
 
+# class-level mutables that were read and found harmless, with the reason
+R92_EXEMPT = {
+    ("algorithms.py", "definition", "_registry"): "decorator registry: filled while the defining modules are imported (module-level @definition applications), never during tracing",
+}
+
 SINK_CALLS = {
     "Expr", "make_symbol", "make_constant", "make_apply", "make_list", "symbol", "constant", "reference", "_register_reference",
     "Type", "fromobject",
@@ -245,20 +250,42 @@ def run(repo, tier):
                     bad = [g.name for g in ast.walk(tree) if isinstance(g, ast.FunctionDef) and _flows_to_sink(g, {name})]
                     r.ob("R9.2", f"{rel} module-level `{name}` mutated in {f.name}", not bad,
                          f"module-level mutable `{name}` is mutated at run time and read by {bad} on the way to an expression/name constructor", loc(rel, st))
-        # (3) class-level mutable attributes
+        # (3) class-level mutable attributes (shared by all instances)
         for cls in [n for n in ast.walk(tree) if isinstance(n, ast.ClassDef)]:
             for st in cls.body:
-                if isinstance(st, ast.Assign) and len(st.targets) == 1 and isinstance(st.targets[0], ast.Name) and isinstance(st.value, (ast.List, ast.Dict, ast.Set)):
-                    nm = st.targets[0].id
-                    writers = []
-                    for m in [n for n in ast.walk(cls) if isinstance(n, ast.FunctionDef)]:
-                        if _attr_mutated_in(m, nm):
-                            writers.append(m.name)
-                    if writers:
-                        n_src += 1
-                        bad = [m.name for m in ast.walk(cls) if isinstance(m, ast.FunctionDef) and _flows_to_sink(m, set(), attr=nm)]
-                        r.ob("R9.2", f"{rel}::{cls.name}.{nm} class-level mutable (written by {sorted(set(writers))})", not bad,
-                             f"class-level `{nm}` is shared by all instances, mutated by {writers} and read by {bad} on the way to an expression/name constructor", loc(rel, st))
+                if not (isinstance(st, ast.Assign) and len(st.targets) == 1 and isinstance(st.targets[0], ast.Name)):
+                    continue
+                v = st.value
+                mutable = isinstance(v, (ast.List, ast.Dict, ast.Set)) or (
+                    isinstance(v, ast.Call) and (dotted(v.func) or "").split(".")[-1] in ("list", "dict", "set", "defaultdict", "OrderedDict", "Counter", "deque"))
+                if not mutable:
+                    continue
+                nm = st.targets[0].id
+                writers = [m.name for m in ast.walk(cls) if isinstance(m, ast.FunctionDef) and _attr_mutated_in(m, nm)]
+                # re-initialised per instance?  (self.<nm> = ... in __init__ shadows the class attribute)
+                init = next((m for m in cls.body if isinstance(m, ast.FunctionDef) and m.name == "__init__"), None)
+                shadowed = init is not None and any(isinstance(x, ast.Attribute) and isinstance(x.ctx, ast.Store) and x.attr == nm and dotted(x.value) == "self" for x in ast.walk(init))
+                if not writers or shadowed:
+                    continue
+                n_src += 1
+                # does the shared object influence instance state / names?  (stored on self, formatted into a string, or passed to a constructor)
+                users = []
+                for m in [x for x in ast.walk(cls) if isinstance(x, ast.FunctionDef)]:
+                    for x in ast.walk(m):
+                        if isinstance(x, ast.Assign) and any(isinstance(t, ast.Attribute) for t in x.targets) and any(isinstance(y, ast.Attribute) and y.attr == nm for y in ast.walk(x.value)):
+                            users.append(m.name)
+                        if isinstance(x, ast.JoinedStr) and any(isinstance(y, ast.Attribute) and y.attr == nm for y in ast.walk(x)):
+                            users.append(m.name)
+                    if _flows_to_sink(m, set(), attr=nm):
+                        users.append(m.name)
+                key = f"{rel}::{cls.name}.{nm} class-level mutable (written by {sorted(set(writers))})"
+                exempt = R92_EXEMPT.get((rel, cls.name, nm))
+                ok = not users or exempt is not None
+                r.ob("R9.2", key, ok,
+                     f"class-level `{nm}` is one object shared by every instance in the process; it is mutated by {sorted(set(writers))} and feeds instance state or names in "
+                     f"{sorted(set(users))}: what one context does changes what a later, fresh context generates", loc(rel, st))
+                if exempt is not None and users:
+                    r.info("R9.2", f"{key}: exempt — {exempt}")
     if n_src < 2:
         raise AnalysisError(f"R9.2 recognised only {n_src} process-global mutable sources; expected at least Context.__init__(paths=[]) and definition._registry")
 
